@@ -223,6 +223,10 @@ def replay_file(pid, spec, path, times=1, tier='quick'):
         rp = json.load(f)
     st = next((s for s in spec['stages'] if s.name == rp.get('stage')), spec['stages'][0])
     if st.binary is None:
+        pre = getattr(st, 'prebuild', None)
+        if pre and not getattr(st, 'prebuilt', False):
+            pre(st, pid, tier)
+            st.prebuilt = True
         ok, out = st.build(pid)
         if not ok:
             return None, None, out
@@ -300,8 +304,9 @@ def run_check(pid, spec, tier, seed, only_stage=None):
     # pre-build hooks (program generators etc.)
     for s in stages:
         pre = getattr(s, 'prebuild', None)
-        if pre:
+        if pre and not getattr(s, 'prebuilt', False):
             pre(s, pid, tier)
+            s.prebuilt = True
     with cf.ThreadPoolExecutor(max_workers=max(1, min(len(stages), 4))) as ex:
         built = list(ex.map(lambda s: s.build(pid), stages))
     for s, (ok, out) in zip(stages, built):
@@ -318,6 +323,19 @@ def run_check(pid, spec, tier, seed, only_stage=None):
     prune_builds(pid, {s.dir for s in stages})
 
     violations, known_hits, unconfirmed, notes = [], {}, [], []
+    # configurations (operation libraries) that do not compile against the current tree
+    for s in stages:
+        for cfgname, errs in sorted(getattr(s, 'lib_failures', {}).items()):
+            fullkey = 'build:' + cfgname
+            kf = match_known(known, pid, fullkey)
+            if kf:
+                known_hits.setdefault(kf['key'], {'count': 0, 'what': kf.get('what', ''), 'example': errs[0][:200]})['count'] += 1
+                continue
+            os.makedirs(FOUND, exist_ok=True)
+            path = os.path.join(FOUND, '%s-build-%s.log' % (pid, cfgname))
+            with open(path, 'w') as f:
+                f.write('configuration %s does not compile:\n' % cfgname + '\n'.join(errs))
+            violations.append({'stage': s.name, 'target': 'build', 'key': cfgname, 'replay': path, 'case': 'compile GLM operation table in configuration ' + cfgname, 'detail': errs[0][:600], 'count': 1})
     # 1. regression tier: stored cases of known findings and of fixed defects
     for k in known.get('findings', []):
         if k['property'] != pid or 'choices' not in k:
